@@ -190,7 +190,24 @@ class RemoteProxy(BaseProxy):
         return self._meta
 
     async def send(self, request: Any) -> Any:
-        return await self._channel.send(request)
+        # If the simulator closes the connection (or its process dies)
+        # while no request is outstanding, the channel only signals the
+        # end of the incoming requests, which ends the reader task. A
+        # request sent after that would never be answered, so we also
+        # watch the reader task while waiting for the reply.
+        reply = asyncio.ensure_future(self._channel.send(request))
+        try:
+            await asyncio.wait(
+                {reply, self._reader_task}, return_when=asyncio.FIRST_COMPLETED
+            )
+            if reply.done():
+                return reply.result()
+            raise ConnectionResetError(
+                "The connection to the simulator has been closed."
+            )
+        finally:
+            if not reply.done():
+                reply.cancel()
 
     async def stop(self) -> None:
         try:
